@@ -3009,6 +3009,13 @@ namespace bloch::runtime {
                     } else if (name == "cx") {
                         ensureQubitActive(args[0].qubit, callExpr->line, callExpr->column);
                         ensureQubitActive(args[1].qubit, callExpr->line, callExpr->column);
+                        // A controlled gate needs two different qubits: 'cx q[0],q[0];' is not
+                        // valid OpenQASM and has no meaning on the simulator either.
+                        if (args[0].qubit == args[1].qubit) {
+                            throw BlochError(ErrorCategory::Runtime, callExpr->line, callExpr->column,
+                                             "cx requires two distinct qubits (control and target are "
+                                             "the same qubit)");
+                        }
                         m_sim.cx(args[0].qubit, args[1].qubit);
                     }
                     return {};  // void
